@@ -162,4 +162,11 @@ theorem src_calc_blockdep_eq_model (a : Gen.AccRow) (prev op : BlockOp) (lp li l
       (Blockdep.calcBlockdep a (some prev) op) :=
   SrcCalcBlockdep.calc_blockdep_sim a prev op lp li l2 hlp hli hl2 s2 hs2 pan plt can clt hp hc ibd fin fout fhit hctx hcl
 
+/-- non-vacuous: for every accelerator row and pair of operations there are opaque functions that satisfy `OpaqueOk`
+    (the model's own, encoded), and every list of ranges is a list "with `None` entries" of itself -/
+example (a : Gen.AccRow) (prev op : BlockOp) :
+    (∃ ibd fin fout fhit, SrcCalcBlockdep.OpaqueOk a prev op ibd fin fout fhit) ∧
+    ((getAddressRanges prev.ofm).map some).filterMap id = getAddressRanges prev.ofm :=
+  ⟨SrcCalcBlockdep.opaqueOk_inhabited a prev op, by simp [List.filterMap_map]⟩
+
 end VelaVerif.Props.C04Src
